@@ -153,6 +153,20 @@ CLAIMED["C20"] = dict(
     technique="bounded exhaustive runtime-contract check on a register-machine model (stand-in) + discharged contract on the xor-swap kernel",
 )
 
+CLAIMED["C19"] = dict(
+    category="exploration",
+    text="Bounded: seeded single-block riscv functions (li/add/mul/mv, values with several uses, pre-assigned registers, pools of 1/2/3/5 registers and an "
+         "infinite-register run) are allocated by the real RISC-V allocator and the allocated code is executed on a register machine: every operand "
+         "must still be in its register when read (no two simultaneously live values share a register), values in `zero` must be the constant zero, "
+         "pre-assigned registers are kept, results equal the SSA evaluation. Additionally every RegisterStack method (push, pop, reserve, unreserve, "
+         "include, exclude) is under a discharged contract (pyvc + z3): the pool is a duplicate-free stack of allocatable non-reserved registers, a popped "
+         "register is no longer available, infinite registers get strictly increasing indices. Exploration is the honest level for the property as a whole.",
+    note="Bounded stand-in for the interference statement, never counted as proved; ValueAllocator/BlockNaiveAllocator/per-op allocate_registers and the x86 "
+         "allocator are not under contract; one pool at a time in the RegisterStack proofs.",
+    design="§4 C19",
+    technique="bounded runtime-contract check on a register-machine model (stand-in) + discharged contracts on RegisterStack (representation invariant)",
+)
+
 NOT_APPLICABLE = {
     "C04": "whole Printer∘Parser composition over every dialect: recursive string programs; no per-function contract within reach of the SMT-backed generator expresses it",
     "C05": "about 80 dialects of hand-written print/parse pairs and a format-string interpreter; same obstacle as C04",
@@ -166,7 +180,7 @@ NOT_APPLICABLE = {
     "C28": "result preservation of an e-graph pipeline: whole-program statement with no per-function postcondition implying it",
 }
 
-NOT_REACHED = ["C02", "C06", "C09", "C11", "C14", "C18", "C19", "C25"]
+NOT_REACHED = ["C02", "C06", "C09", "C11", "C14", "C18", "C25"]
 
 
 def main():
